@@ -16,7 +16,7 @@ words = {1: 'one other engineer has', 2: 'two', 3: 'three', 4: 'four', 5: 'five'
 for p in props:
     pid = p['id']; lc = pid.lower()
     earlier = []
-    for d in ['seeded', 'seeded/r2', 'seeded/r3', 'seeded/r4', 'seeded/r5', 'seeded/r6', 'seeded/r7', 'seeded/r8']:
+    for d in ['seeded', 'seeded/r2', 'seeded/r3', 'seeded/r4', 'seeded/r5', 'seeded/r6', 'seeded/r7', 'seeded/r8', 'seeded/r9']:
         mp = '%s/%s/%s/meta.json' % (V, d, pid)
         pp = '%s/%s/%s/patch.diff' % (V, d, pid)
         if os.path.exists(mp) and os.path.exists(pp):
